@@ -265,9 +265,25 @@ async fn run_session<T: RequestHandler>(
     mut handler: TcpServerConnectionHandler,
     decode: DecodeLevel,
     handlers: ServerHandlerMap<T>,
-    commands: tokio::sync::mpsc::Receiver<ServerCommand>,
+    mut commands: tokio::sync::mpsc::Receiver<ServerCommand>,
 ) {
-    match handler.handle(socket).await {
+    // a peer that stalls in the (TLS) handshake must not outlive its eviction or the server
+    let mut decode = decode;
+    let result = {
+        let handshake = handler.handle(socket);
+        tokio::pin!(handshake);
+        loop {
+            tokio::select! {
+                res = &mut handshake => break res,
+                cmd = commands.recv() => match cmd {
+                    None | Some(ServerCommand::Shutdown) => return,
+                    Some(ServerCommand::ChangeDecoding(level)) => decode = level,
+                }
+            }
+        }
+    };
+
+    match result {
         Err(err) => {
             tracing::warn!("error from {}: {}", addr, err);
         }
